@@ -213,6 +213,8 @@ fn format_variant(
 
 /// `{ "tag": "Variant" } & <content>` for the variant of an internally tagged enum. `&` binds
 /// tighter than `|`: a content that is a union (an inlined enum) has to be parenthesised.
+/// A content of `null` (a variant holding `()` or a unit struct) is written by serde as the tag
+/// alone, and `{ .. } & null` would be `never`.
 fn intersect_with_tag(
     tag: TokenStream,
     ts_name: &TokenStream,
@@ -220,7 +222,9 @@ fn intersect_with_tag(
 ) -> TokenStream {
     quote!({
         let content: String = #content;
-        if content.contains(" | ") {
+        if content == "null" {
+            format!("{{ \"{}\": \"{}\" }}", #tag, #ts_name)
+        } else if content.contains(" | ") {
             format!("{{ \"{}\": \"{}\" }} & ({})", #tag, #ts_name, content)
         } else {
             format!("{{ \"{}\": \"{}\" }} & {}", #tag, #ts_name, content)
